@@ -117,13 +117,15 @@ static void parse_bytes(const char *s) {
         s += 2;
     }
 }
+static void store_rev(void *dst, const void *src, size_t n) { for (size_t i = 0; i < n; i++) ((unsigned char *)dst)[i] = ((const unsigned char *)src)[n - 1 - i]; }
 static void put_hex(const unsigned char *p, size_t n) { for (size_t i = 0; i < n; i++) printf("%02x", p[i]); }
 """
 
 
 class _DriverGen:
-    def __init__(self, unit: Unit, messages: List[Message], with_json: bool, cxx: bool, size_from_model: bool = False):
+    def __init__(self, unit: Unit, messages: List[Message], with_json: bool, cxx: bool, size_from_model: bool = False, be_storage: bool = False):
         self.size_from_model = size_from_model
+        self.be_storage = be_storage
         self.unit = unit
         self.messages = messages
         self.with_json = with_json
@@ -139,7 +141,11 @@ class _DriverGen:
         t = resolve(t)
         ind = "    " * (depth + 1)
         if isinstance(t, (TBase, Enum)):
-            self.emit(f"{ind}{expr} = (__typeof__({expr}))v[n++];")
+            if self.be_storage:
+                # storage laid out big-endian BY THE HARNESS (simulating a big-endian host's memory image)
+                self.emit(f"{ind}{{ __typeof__({expr}) tmp_ = (__typeof__({expr}))v[n++]; store_rev(&({expr}), &tmp_, sizeof(tmp_)); }}")
+            else:
+                self.emit(f"{ind}{expr} = (__typeof__({expr}))v[n++];")
         elif isinstance(t, TArray):
             i = f"i{depth}"
             self.emit(f"{ind}for (int {i} = 0; {i} < {t.cap}; {i}++) {{")
@@ -154,7 +160,10 @@ class _DriverGen:
     def gen_get(self, t: Any, expr: str, depth: int) -> None:
         t = resolve(t)
         ind = "    " * (depth + 1)
-        if isinstance(t, TBase) and t.kind == "int":
+        if self.be_storage and isinstance(t, (TBase, Enum)):
+            cast = "(u64)(long long)" if isinstance(t, TBase) and t.kind == "int" else "(u64)"
+            self.emit(f'{ind}{{ __typeof__({expr}) tmp_; store_rev(&tmp_, &({expr}), sizeof(tmp_)); printf(" %llx", {cast}(tmp_)); }}')
+        elif isinstance(t, TBase) and t.kind == "int":
             self.emit(f'{ind}printf(" %llx", (u64)(long long)({expr}));')
         elif isinstance(t, (TBase, Enum)):
             self.emit(f'{ind}printf(" %llx", (u64)({expr}));')
@@ -393,8 +402,9 @@ class Crash(Exception):
 class CDriver:
     """Built driver executable for one unit + generated C directory."""
 
-    def __init__(self, unit: Unit, gendir: str, messages: Optional[List[Message]] = None, cfg: Optional[CConfig] = None, with_json: bool = True, workdir: Optional[str] = None, size_from_model: bool = False):
+    def __init__(self, unit: Unit, gendir: str, messages: Optional[List[Message]] = None, cfg: Optional[CConfig] = None, with_json: bool = True, workdir: Optional[str] = None, size_from_model: bool = False, be_storage: bool = False):
         self.size_from_model = size_from_model
+        self.be_storage = be_storage
         self.unit = unit
         self.gendir = gendir
         self.cfg = cfg or CConfig()
@@ -406,7 +416,7 @@ class CDriver:
 
     def _build(self) -> None:
         cfg = self.cfg
-        src = _DriverGen(self.unit, self.messages, self.with_json, cfg.cxx_driver, self.size_from_model).generate()
+        src = _DriverGen(self.unit, self.messages, self.with_json, cfg.cxx_driver, self.size_from_model, self.be_storage).generate()
         ext = ".cpp" if cfg.cxx_driver else ".c"
         drv = os.path.join(self.dir, "drv" + ext)
         with open(drv, "w") as f:
